@@ -282,4 +282,31 @@ example :
        ⟨.FileMovedEvent, "W/d/b", "W/x/e/b", true⟩, ⟨.DirMovedEvent, "W/d/dd", "W/x/e/dd", true⟩,
        ⟨.FileMovedEvent, "W/d/dd/a", "W/x/e/dd/a", true⟩] := by decide +kernel
 
+
+/-- "renamed twice in a row": `rename a b; rename b c` read as one batch, `a` a directory TREE of the watched tree, `b`, `c`
+    free names.  Both halves are re-keyings of the watch maps that never look at the file system, so the observer ends in
+    the state of the drained run; the stream lacks the synthetic moved events of the first move (nothing lies at `b` when
+    the emitter looks) but replays to the same tree: the descendants are announced once, as moved from `b/..` to `c/..`.
+    Also a burst kind of `pacedOK`. -/
+theorem burst_renamed_twice_partial (fs0 : FS) (hwf : fs0.WF) (full : Bool) (pre : List Op) (a b c : P)
+    (hv : allValid (Sys.start fs0 true full) pre = true) (hroot : Op.rmdir ["W"] ∉ pre)
+    (hb : renameChainB ((Sys.start fs0 true full).run pre).1 [.rename a b, .rename b c] = true) :
+    sameTree (replay (treeW ((Sys.start fs0 true full).run pre).1.fs)
+               (((Sys.start fs0 true full).run pre).1.burst [.rename a b, .rename b c]).2)
+             (treeW (((Sys.start fs0 true full).run pre).1.burst [.rename a b, .rename b c]).1.fs) := by
+  obtain ⟨inv, hs, hc⟩ := after_history fs0 hwf full pre hv hroot
+  exact (paced_step _ _ inv hs hc (okBurst_of_check _ _ (by simp [okBurstB, hb]))).2.2.2
+
+/-- non-vacuity: a populated directory renamed twice before the reader wakes up, the second time into another directory -/
+example :
+    let k0 : Kern := ⟨[], 1, 1⟩
+    let fs0 := [Op.mkdir ["W", "d"], .create ["W", "d", "b"], .mkdir ["W", "d", "dd"], .mkdir ["W", "x"]].foldl
+      (fun fs op => (kernelOp fs k0 op).1) FS.init
+    let s := Sys.start fs0 true false
+    renameChainB s [.rename ["W", "d"] ["W", "e"], .rename ["W", "e"] ["W", "x", "f"]] = true ∧
+    (s.burst [.rename ["W", "d"] ["W", "e"], .rename ["W", "e"] ["W", "x", "f"]]).2.map PEv.toEvent =
+      [⟨.DirMovedEvent, "W/d", "W/e", false⟩, ⟨.DirModifiedEvent, "W", "", false⟩, ⟨.DirModifiedEvent, "W", "", false⟩,
+       ⟨.DirMovedEvent, "W/e", "W/x/f", false⟩, ⟨.DirModifiedEvent, "W", "", false⟩, ⟨.DirModifiedEvent, "W/x", "", false⟩,
+       ⟨.FileMovedEvent, "W/e/b", "W/x/f/b", true⟩, ⟨.DirMovedEvent, "W/e/dd", "W/x/f/dd", true⟩] := by decide +kernel
+
 end WD.C01
